@@ -77,6 +77,7 @@ class UnitResult:
         self.dropped = []
         self.trusted = []
         self.gen_path = None
+        self.gen_lines = []
         self.gen_sha = None
         self.wall = 0.0
         self.smt_ms = 0
@@ -128,8 +129,12 @@ def run_unit(name, seed=0, rlimit=None, keep=False, extra_args=()):
     scratch = tempfile.mkdtemp(prefix=f'vx_{name}_')
     gen_path = os.path.join(scratch, f'{name}.rs')
     open(gen_path, 'w', encoding='utf-8').write(text)
-    shutil.copy(gen_path, os.path.join(BUILD, f'{name}.rs'))
+    try:
+        shutil.copy(gen_path, os.path.join(BUILD, f'{name}.rs'))   # a copy for the reader; never read back (checks may run concurrently)
+    except OSError:
+        pass
     r.gen_path = os.path.join(BUILD, f'{name}.rs')
+    r.gen_lines = text.split('\n')
     r.gen_sha = hashlib.sha256(text.encode()).hexdigest()[:16]
     gen_lines = text.split('\n')
     # trusted-base scan of the generated file: every assumed item, with the item it sits on
@@ -446,7 +451,7 @@ def check(pid, tier):
         # lemma-level obligations carrying this property's labels (proof fns in the template)
         for lab, ln in r.labels.items():
             if lab.startswith(pid + '.'):
-                samples.append({'label': lab, 'unit': r.name, 'clause': open(r.gen_path).read().split('\n')[ln - 1].strip()[:200]})
+                samples.append({'label': lab, 'unit': r.name, 'clause': (r.gen_lines[ln - 1].strip()[:200] if 0 < ln <= len(r.gen_lines) else '')})
         # labelled clauses of this property that are not already counted through a function whose props include pid:
         # lemmas / client harnesses written in the template, and clauses carrying another property's label
         counted_ranges = [fn.gen_lines for fn in r.funcs if fn.kind in ('fn', 'body') and pid in fn.props and fn.gen_lines]
